@@ -1,6 +1,7 @@
 package main
 
 import (
+	"fmt"
 	"go/constant"
 	"go/token"
 	"go/types"
@@ -1035,6 +1036,7 @@ func (e *Exec) concretize(st *State, fr *Frame, t *Term, limit int) []concOut {
 		k := e.tc.BVConst(v, t.w)
 		s2 := st.fork()
 		s2.assume(e.tc.Eq(t, k))
+		s2.tag += fmt.Sprintf("|c%d=%d", t.id, v)
 		outs = append(outs, concOut{s2, fr.fork(), v})
 		excl = append(excl, e.tc.Ne(t, k))
 	}
